@@ -303,6 +303,24 @@ def run(ctx):
     from . import shared_rules
     shared_rules.compute_builder_index_reset(ctx, 'R09.8')
     shared_rules.listener_ids_unique(ctx, 'R09.8')
+    # ---- R09.9 prefill-set typestate inside one handler
+    ctx.rule('R09.9', 'prefill-set typestate: an operation that unwraps the prefill set of a queue (move_prefilled_task_to_ready / remove_prefilled) is not reachable after add_ready_task in the same handler (add_ready_task may dispose every prefill set of lower priority)')
+    nops = 0
+    for hname in ('on_remove_worker', 'task_reject', 'task_failed', 'task_finished', 'on_cancel_tasks', 'task_running', 'on_retract_response'):
+        hb_ = prog.body(REACTOR + hname)
+        qadd = set(x for x in effect_blocks(prog, hb_, E_Q_ADD))
+        from hqrules.templates import _direct_effect_blocks
+        ops = sorted(set(_direct_effect_blocks(hb_, E_QPF2Q)) | set(_direct_effect_blocks(hb_, E_QPF_REM)))   # direct calls only: keyed by tasks this handler observed as Prefilled
+        if not ops:
+            continue
+        after = set()
+        for x in qadd:
+            after |= hb_.reach_after(x)
+        for x in ops:
+            nops += 1
+            ctx.ob('R09.9', f'{hname}|{callee_of(hb_.term[x]).split("::")[-1]} not after add_ready_task', x not in after,
+                   f'{hname}: {callee_of(hb_.term[x]).split("::")[-1]} unwraps TaskQueue.prefill; it must not run after add_ready_task, which disposes prefill sets of lower priority (lost worker with a high-priority assigned and a low-priority prefilled task)', hb_.loc(x))
+    ctx.floor('R09.9', nops, 3, 'prefill-set operations in reactor handlers')
     # ---- R09.6 / R09.7
     ctx.rule('R09.6', 'no panicking task lookup inside a loop whose body may remove tasks from the core (ids collected before the loop can be gone when their turn comes)')
     ctx.rule('R09.7', 'TaskQueue::remove asserts membership in one arm: every call site must be guarded by a test that implies the task is queue-resident (or no arm may diverge)')
